@@ -6,8 +6,9 @@ The one table that maps IR fields to parameter names is ROWS below.
 
 request  {"op": "rows"}                         -> signatures + row table (for the harness)
 request  {"op": "run", "cases": [case, ...]}    -> one result per case
-  case = {"row": "RGBLed.on", "pos": [src, ...], "kws": [[name, src], ...]}
-  (argument values are Python *source literals*, chosen by the harness, distinct per parameter)
+  case = {"row": "RGBLed.on", "pos": [src, ...], "kws": [[name, src], ...], "py_only": false}
+  (argument values are Python *source literals*, chosen by the harness, distinct per parameter;
+   py_only: evaluate Python's binder only, do not transpile)
 """
 import dataclasses
 import importlib
@@ -265,6 +266,9 @@ def run_case(case, parse):
         res["py"] = {"accepted": len({k for k, _ in kws}) == len(kws), "given": given}
     except TypeError:
         res["py"] = {"accepted": False, "given": None}
+    if case.get("py_only"):
+        res["status"] = "skipped"
+        return res
     # ---- the real parser
     try:
         prog = parse(script)
@@ -296,8 +300,6 @@ def run_case(case, parse):
         res.update(status="ok", fields={"emit": {"serial_read_expr": e}})
         return res
     hits = [n for n in nodes if type(n).__name__ == spec["node"] and getattr(n, "name", None) == "dev"]
-    if spec["pre"]:
-        pass
     if not hits:
         res.update(status="no-node", seen=sorted({type(n).__name__ for n in nodes}))
         return res
